@@ -302,6 +302,39 @@ example : (stepOp (runOps {} (streamOps .md5 [[0x61], [], [0x62, 0x63]])).1 (.sl
     = .digest (Spec.Md5.hash [0x61, 0x62, 0x63]) (some (Spec.Md5.hash [0x61, 0x62, 0x63])) :=
   exec_stream_digest _ _ _
 
+/-! ### `bigd`: tens of MiB against the model
+
+`bigd a n seed` makes the implementation hash the `n` bytes `pattern n seed` (byte `i` = `patByte seed i`).  `pmodel`
+cannot run the `Spec` function on a list of that size; it folds the model's `_Update` over chunks of 2^16 bytes
+produced on the fly and prints the model's `_Final`.  That digest *is* the specified one: -/
+
+open Percival.Model.HashStep in
+/-- the message of `bigd a n seed` has `n` bytes -/
+theorem pattern_length (n seed : Nat) : (pattern n seed).length = n :=
+  Proofs.HashStep.pattern_length n seed
+
+open Percival.Model.HashStep in
+/-- byte `i` of it is `(uint8_t)(seed + i*7 + (i>>8)*13 + (i>>16)*101)`, the expression in `harness/h_hash.c` -/
+theorem pattern_bytes (n seed : Nat) : pattern n seed = (List.range n).map (patByte seed) :=
+  Proofs.HashStep.pattern_eq_map n seed
+
+open Percival.Model.HashStep in
+/-- **`bigd` prints the specified digest of the pattern** (or `skip` beyond 2^30 bytes / a seed that is not a byte);
+the state is not touched.  By `sha256_stream_eq_spec` / `sha1_stream_eq_spec` / `md5_stream_eq_spec` on the chunk list. -/
+theorem exec_bigd_eq_spec (st : St) (a : AlgId) (n seed : Nat) :
+    stepOp st (.bigd a n seed)
+      = (st, if bigdOk n seed then .streamed (a.spec (pattern n seed)) else .skip) := by
+  simp only [stepOp, Proofs.HashStep.alg_bigd_spec]
+
+open Percival.Model.HashStep in
+/-- non-vacuity: 70 bytes (one block and a tail) -/
+example : stepOp {} (.bigd .sha1 70 3) = ({}, .streamed (Spec.Sha1.hash ((List.range 70).map (patByte 3)))) := by
+  rw [exec_bigd_eq_spec, pattern_bytes]; rfl
+
+open Percival.Model.HashStep in
+/-- the chunking is real: 2^16 + 5 bytes are two chunks, of 2^16 and of 5 bytes -/
+example : (patChunks 9 (nChunks (2^16 + 5)) 0 (2^16 + 5)).map List.length = [2^16, 5] := by decide +kernel
+
 open Percival.Model.HashStep in
 /-- **`forged` only after `addcnt`.**  A run without `addcnt a` leaves `a`'s context unforged, so its `fin` lines
 are digest lines (judged at L1), never `forged` lines. -/
